@@ -1,4 +1,4 @@
-import DL.Lemmas.CFSound2
+import DL.Lemmas.CFKids
 
 /-! Soundness invariant: blocks and `if`. -/
 namespace DL.CF
@@ -6,10 +6,9 @@ namespace DL.CF
 theorem getD_cont_stops (e : Option End) : stopsEnd (some (e.getD .cont)) = stopsEnd e := by
   rcases e with _ | ⟨r, t, i⟩ | _ | _ <;> rfl
 
-theorem block_ok (live : Bool) (p : Nat) (b : Stmts) (a : A) (hpre : Pre live (p :: b.positions) a)
-    (ih : ∀ a0, Pre live b.positions a0 → PostL live b.positions b.compl b.reach a0 (visitStmts b a0))
-    (hrf : ∀ q, q ∉ b.positions → b.reach q = false) :
-    PostS live (.block p b) a (visitStmt (.block p b) a) := by
+theorem block_ok (live : Bool) (ls : List Id) (p : Nat) (b : Stmts) (a : A) (hpre : Pre live (p :: b.positions) a)
+    (ih : ∀ a0, Pre live b.positions a0 → PostL live b.upos b.positions b.compl b.reach b.inner a0 (visitStmts b a0)) :
+    PostS live ls (.block p b) a (visitStmt (.block p b) a) := by
   have hnd := List.nodup_cons.mp hpre.nodup
   have hv : visitStmt (.block p b) a = blockTail p (visitStmts b (flagA a p .other)) := by simp [visitStmt, flagA]
   rw [hv]
@@ -18,130 +17,157 @@ theorem block_ok (live : Bool) (p : Nat) (b : Stmts) (a : A) (hpre : Pre live (p
   unfold blockTail
   have hst : stopsEnd (markAsEnd p (a1.sc.end_.getD .cont) a1).sc.end_ = stopsEnd a1.sc.end_ := by
     rw [markAsEnd_stops, getD_cont_stops]; simp
-  refine ⟨⟨?_, ?_, ?_, ?_, ?_, ?_, ?_, ?_⟩, ?_⟩
+  refine ⟨⟨?_, ?_, ?_, ?_, ?_, ?_, ?_, ?_, ?_, ?_, ?_⟩, ?_⟩
   · intro hs; rw [hst] at hs; simpa [Stmt.compl] using h1.p1 hs
   · intro hb; rw [markAsEnd_foundBreak]; exact h1.p2 (by simpa [Stmt.compl] using hb)
   · intro hc; rw [markAsEnd_foundContinue]; exact h1.p2c (by simpa [Stmt.compl] using hc)
   · intro hb; rw [markAsEnd_foundBreak]; exact h1.monoB hb
   · intro hc; rw [markAsEnd_foundContinue]; exact h1.monoC hc
-  · unfold FB; rw [markAsEnd_foundBreak]; exact h1.fb
+  · intro hc; rw [markAsEnd_foundContinue]; exact h1.p2l (by simpa [Stmt.compl] using hc)
   · intro q hq hu
     rw [markAsEnd_ur] at hu
-    simp only [Stmt.positions] at hq
+    simp only [Stmt.upos] at hq
     rcases List.mem_cons.mp hq with rfl | hqb
     · rw [ur_eq_of_info_eq (h1.frame q hnd.1)] at hu
       have := own_pos_dead hpre q .other _ rfl hu
       simp [this]
-    · have hne : q ≠ p := fun e => hnd.1 (e ▸ hqb)
+    · have hne : q ≠ p := fun e => hnd.1 (e ▸ Stmts.upos_sub b q hqb)
       have := h1.p3 q hqb hu
       simp only [Stmt.reach]
       revert this; cases live <;> simp [hne]
+  · intro q hq hu
+    rw [markAsEnd_ur] at hu
+    simp only [Stmt.upos] at hq
+    simp only [Stmt.inner]
+    rcases List.mem_cons.mp hq with rfl | hqb
+    · exact Stmts.inner_false b q hnd.1
+    · exact h1.p3i q hqb hu
   · intro q hq
     simp only [Stmt.positions, List.mem_cons, not_or] at hq
     rw [markAsEnd_info_other _ _ _ _ hq.1, h1.frame q hq.2]
     exact flagA_other a p .other q hq.1
-  · intro hs
+  · intro hh; rw [markAsEnd_mayThrow]; exact h1.monoT hh
+  · intro hh; rw [markAsEnd_mayThrow]; exact h1.pT (by simpa [Stmt.compl] using hh)
+  · intro _ hs
     simp only [Stmt.pos] at hs
     rcases markAsEnd_self_stops _ _ _ hs with h' | h'
     · simpa [Stmt.compl] using h1.p1 h'
     · rw [getD_cont_stops] at h'; simpa [Stmt.compl] using h1.p1 h'
 
 /-- what `with_child_scope(BlockKind::If, ..)` leaves in the parent, from the invariant of the branch -/
-theorem ifChild (live : Bool) (c : Stmt) (a1 c' a2 : A) (hpost : PostS live c (childA .ifK a1) c') (hfb : FB a1)
+theorem ifChild (live : Bool) (ls : List Id) (c : Stmt) (a1 c' a2 : A) (hpost : PostS live ls c (childA .ifK a1) c')
     (ha2 : a2 = { sc := mergeSc .ifK a1.sc c'.sc, info := c'.info }) :
     a2.info = c'.info ∧ a2.sc.end_ = a1.sc.end_ ∧
-    ((live && (c.compl []).b) = true → a2.sc.foundBreak = some none) ∧
-    ((live && (c.compl []).c) = true → a2.sc.foundContinue = true) ∧
+    ((live && (c.compl ls).b) = true → a2.sc.foundBreak = some none) ∧
+    ((live && ((c.compl ls).c || (c.compl ls).hasCl)) = true → a2.sc.foundContinue = true) ∧
     (a1.sc.foundBreak = some none → a2.sc.foundBreak = some none) ∧
-    (a1.sc.foundContinue = true → a2.sc.foundContinue = true) ∧ FB a2 := by
+    (a1.sc.foundContinue = true → a2.sc.foundContinue = true) ∧
+    (a1.sc.mayThrow = true → a2.sc.mayThrow = true) ∧
+    ((live && (c.compl ls).t) = true → a2.sc.mayThrow = true) := by
   subst ha2
-  refine ⟨rfl, rfl, ?_, ?_, ?_, ?_, ?_⟩
+  refine ⟨rfl, rfl, ?_, ?_, ?_, ?_, fun h => by simp [mergeSc, h], fun h => by simp [mergeSc, hpost.pT h]⟩
   · intro hb; simp [mergeSc, mergeFb, hpost.p2 hb]
-  · intro hc; simp [mergeSc, hpost.p2c hc]
+  · intro hc
+    have : c'.sc.foundContinue = true := by
+      cases h1 : (live && (c.compl ls).c) with
+      | true => exact hpost.p2c h1
+      | false =>
+        apply hpost.p2l
+        revert hc h1; cases live <;> cases (c.compl ls).c <;> simp
+    simp [mergeSc, this]
   · intro hb
     by_cases h : (c'.sc.foundBreak == some none) = true
     · simp [mergeSc, mergeFb, h]
     · simp [mergeSc, mergeFb, h, hb]
   · intro hc; simp [mergeSc, hc]
-  · unfold FB
-    simp only [mergeSc, mergeFb]
-    by_cases h : (c'.sc.foundBreak == some none) = true
-    · simp [h]
-    · simp only [h, Bool.false_eq_true, if_false]
-      rcases hfb with h1 | h1
-      · simp only [h1, Option.isNone_none, if_true]; exact hpost.fb
-      · simp [h1]
 
 theorem childA_pre (live : Bool) (kind : BlockKind) (ps : List Nat) (a1 : A) (hs : stopsEnd a1.sc.end_ = true → live = false)
     (hfresh : ∀ p ∈ ps, a1.info.endAt p = none) (hn : ps.Nodup) : Pre live ps (childA kind a1) :=
-  ⟨fun h => hs (childEnd_stops kind _ h), hfresh, hn, Or.inl rfl⟩
+  ⟨fun h => hs (childEnd_stops kind _ h), hfresh, hn⟩
 
-theorem if_none_ok (live : Bool) (p : Nat) (test : Kids) (c : Stmt) (a : A) (ht : test.flat = true)
-    (hpre : Pre live (p :: c.positions) a)
-    (ih : ∀ a0, Pre live c.positions a0 → PostS live c a0 (visitStmt c a0)) :
-    PostS live (.ifS p test c none) a (visitStmt (.ifS p test c none) a) := by
-  have hnd := List.nodup_cons.mp hpre.nodup
-  have hs1 := visitKids_flat test (flagA a p .other) ht
+theorem if_none_ok (live : Bool) (ls : List Id) (p : Nat) (test : Kids) (c : Stmt) (a : A)
+    (hpre : Pre live (p :: (test.positions ++ c.positions)) a)
+    (ihk : ∀ x, PreK test.positions x → PostK test.upos test.positions test.inner test.mayThrow x (visitKids test x))
+    (ih : ∀ a0, Pre live c.positions a0 → PostS live [] c a0 (visitStmt c a0)) :
+    PostS live ls (.ifS p test c none) a (visitStmt (.ifS p test c none) a) := by
+  have hk := ihk _ (Prefix.preK hpre)
   have hv : visitStmt (.ifS p test c none) a =
       (markAsEnd p .cont (withChild .ifK c.pos (fun x => sobTail c (visitStmt c x)) (visitKids test (flagA a p .other)))).setEnd
         (visitKids test (flagA a p .other)).sc.end_ := by simp [visitStmt, flagA]
   rw [hv]
-  generalize visitKids test (flagA a p .other) = a1 at hs1 ⊢
-  have he1 : a1.sc.end_ = a.sc.end_ := hs1.end_
-  have hb1 : a1.sc.foundBreak = a.sc.foundBreak := hs1.fb
-  have hc1 : a1.sc.foundContinue = a.sc.foundContinue := hs1.fc
-  have hpre1 : Pre live c.positions (childA .ifK a1) := by
-    refine childA_pre live .ifK _ a1 (fun h => hpre.hs (by rw [← he1]; exact h)) ?_ hnd.2
-    intro q hq; rw [endAt_eq_of_info_eq (congrFun hs1.info q), flagA_endAt]
-    exact hpre.fresh q (List.mem_cons_of_mem _ hq)
-  have h1 := sob_ok live c _ _ (ih _ hpre1)
-  have hfb1 : FB a1 := by unfold FB; rw [hb1]; exact hpre.fb
+  generalize visitKids test (flagA a p .other) = a1 at hk ⊢
+  have hx := Prefix.of hpre hk
+  have hpre1 : Pre live c.positions (childA .ifK a1) := childA_pre live .ifK _ a1 hx.hs hx.hfresh hx.ndr
+  have h1 := sob_ok live [] c _ _ (ih _ hpre1)
   generalize ha2 : withChild .ifK c.pos (fun x => sobTail c (visitStmt c x)) a1 = a2
   rw [withChild_if] at ha2
-  obtain ⟨hi2, he, hb, hc, hmb, hmc, hfb⟩ := ifChild live c a1 _ a2 h1 hfb1 ha2.symm
+  obtain ⟨hi2, he, hb, hc, hmb, hmc, hmt, hpt⟩ := ifChild live [] c a1 _ a2 h1 ha2.symm
   generalize sobTail c (visitStmt c (childA .ifK a1)) = c' at h1 hi2
-  have hcp : c.pos ≠ p := fun e => hnd.1 (e ▸ c.pos_mem)
-  refine ⟨⟨?_, ?_, ?_, ?_, ?_, ?_, ?_, ?_⟩, ?_⟩
+  have hcp : c.pos ≠ p := fun e => hx.pr (e ▸ c.pos_mem)
+  have hcu : ∀ q, q ∈ c.upos → q ≠ p ∧ q ∉ test.positions := fun q hq =>
+    ⟨fun e => hx.pr (e ▸ Stmt.upos_sub c q hq), fun h => hx.disj q h (Stmt.upos_sub c q hq)⟩
+  have htu : ∀ q, q ∈ test.upos → q ≠ p ∧ q ∉ c.positions := fun q hq =>
+    ⟨fun e => hx.pk (e ▸ Kids.upos_sub test q hq), fun h => hx.disj q (Kids.upos_sub test q hq) h⟩
+  refine ⟨⟨?_, ?_, ?_, ?_, ?_, ?_, ?_, ?_, ?_, ?_, ?_⟩, ?_⟩
   · intro hst
     simp only [setEnd_end] at hst
-    rw [he1] at hst
-    simp [hpre.hs hst]
+    simp [hx.hs hst]
   · intro hh
     simp only [setEnd_foundBreak, markAsEnd_foundBreak]
     exact hb (by simpa [Stmt.compl] using hh)
   · intro hh
     simp only [setEnd_foundContinue, markAsEnd_foundContinue]
-    exact hc (by simpa [Stmt.compl] using hh)
+    exact hc (by simp only [Stmt.compl, seq_c, evalCompl_c, evalCompl_n, union_c, normal_c] at hh; revert hh; cases live <;> cases (c.compl []).c <;> simp)
   · intro hh
     simp only [setEnd_foundBreak, markAsEnd_foundBreak]
-    exact hmb (by rw [hb1]; exact hh)
+    exact hmb (by rw [hx.hb]; exact hh)
   · intro hh
     simp only [setEnd_foundContinue, markAsEnd_foundContinue]
-    exact hmc (by rw [hc1]; exact hh)
-  · unfold FB; simp only [setEnd_foundBreak, markAsEnd_foundBreak]; exact hfb
+    exact hmc (hx.hc hh)
+  · intro hh
+    simp only [setEnd_foundContinue, markAsEnd_foundContinue]
+    exact hc (by simp only [Stmt.compl, seq_hasCl, evalCompl_hasCl, evalCompl_n, union_hasCl, normal_hasCl] at hh; revert hh; cases live <;> cases (c.compl []).hasCl <;> simp)
   · intro q hq hu
     simp only [setEnd_info, markAsEnd_ur] at hu
     rw [hi2] at hu
-    simp only [Stmt.positions] at hq
-    rcases List.mem_cons.mp hq with rfl | hqc
-    · rw [ur_eq_of_info_eq (h1.frame q hnd.1)] at hu
-      have := own_pos_dead hpre q .other _ (by simp only [childA]; rw [hs1.info]) hu
+    simp only [Stmt.upos, List.mem_cons, List.mem_append] at hq
+    simp only [Stmt.reach, evalCompl_n, Bool.true_and]
+    rcases hq with rfl | hqt | hqc
+    · have := hx.dead hpre _ (ur_eq_of_info_eq (h1.frame q hx.pr)) hu
       simp [this]
-    · have hne : q ≠ p := fun e => hnd.1 (e ▸ hqc)
-      have := h1.p3 q hqc hu
-      simp only [Stmt.reach, evalCompl_n, Bool.true_and]
-      revert this; cases live <;> simp [hne]
+    · simp [(htu q hqt).1, c.reach_false q (htu q hqt).2]
+    · have := h1.p3 q hqc hu
+      revert this; cases live <;> simp [(hcu q hqc).1]
+  · intro q hq hu
+    simp only [setEnd_info, markAsEnd_ur] at hu
+    rw [hi2] at hu
+    simp only [Stmt.upos, List.mem_cons, List.mem_append] at hq
+    simp only [Stmt.inner]
+    rcases hq with rfl | hqt | hqc
+    · simp [Kids.inner_false test q hx.pk, c.inner_false q hx.pr]
+    · rw [ur_eq_of_info_eq (h1.frame q (htu q hqt).2)] at hu
+      simp [hk.p3 q hqt hu, c.inner_false q (htu q hqt).2]
+    · simp [h1.p3i q hqc hu, Kids.inner_false test q (hcu q hqc).2]
   · intro q hq
-    simp only [Stmt.positions, List.mem_cons, not_or] at hq
+    simp only [Stmt.positions, List.mem_cons, List.mem_append, not_or] at hq
     simp only [setEnd_info]
-    rw [markAsEnd_info_other _ _ _ _ hq.1, hi2]
-    rw [h1.frame q hq.2]
-    simp only [childA]
-    rw [hs1.info]; exact flagA_other a p .other q hq.1
-  · intro hst
+    rw [markAsEnd_info_other _ _ _ _ hq.1, hi2, h1.frame q hq.2.2]
+    exact hx.hi q hq.1 hq.2.1
+  · intro hh
+    simp only [setEnd_mayThrow, markAsEnd_mayThrow]
+    exact hmt (hx.hmt hh)
+  · intro hh
+    simp only [setEnd_mayThrow, markAsEnd_mayThrow]
+    simp only [Stmt.compl, seq_t, evalCompl_t, evalCompl_n, union_t, normal_t, Bool.true_and, Bool.or_false] at hh
+    cases hkt : (live && test.mayThrow) with
+    | true => exact hmt (Prefix.pT hpre hk hkt)
+    | false =>
+      apply hpt
+      revert hh hkt; cases live <;> cases test.mayThrow <;> simp
+  · intro _ hst
     simp only [Stmt.pos, setEnd_info] at hst
     rcases markAsEnd_self_stops _ _ _ hst with h' | h'
-    · rw [he, he1] at h'; simp [hpre.hs h']
+    · rw [he] at h'; simp [hx.hs h']
     · simp at h'
 
 end DL.CF
@@ -161,126 +187,5 @@ theorem ifJoin_eq (p : Nat) (cr ar : Option End) (a : A) :
       (stopsEnd (some e) = true → stopsEnd cr = true ∧ stopsEnd ar = true) := by
   rcases cr with _ | ⟨r1, t1, i1⟩ | _ | _ <;> rcases ar with _ | ⟨r2, t2, i2⟩ | _ | _ <;>
     simp only [ifJoin] <;> exact ⟨_, rfl, by simp⟩
-
-theorem if_some_ok (live : Bool) (p : Nat) (test : Kids) (c al : Stmt) (a : A) (ht : test.flat = true)
-    (hfc : c.inF = true) (hfa : al.inF = true)
-    (hpre : Pre live (p :: (c.positions ++ al.positions)) a)
-    (ihc : ∀ a0, Pre live c.positions a0 → PostS live c a0 (visitStmt c a0))
-    (iha : ∀ a0, Pre live al.positions a0 → PostS live al a0 (visitStmt al a0)) :
-    PostS live (.ifS p test c (some al)) a (visitStmt (.ifS p test c (some al)) a) := by
-  have hnd := List.nodup_cons.mp hpre.nodup
-  have hnd2 := List.nodup_append.mp hnd.2
-  have hdisj : ∀ q, q ∈ c.positions → q ∈ al.positions → False := fun q h1 h2 => hnd2.2.2 q h1 q h2 rfl
-  have hpc : p ∉ c.positions := fun h => hnd.1 (List.mem_append.mpr (Or.inl h))
-  have hpa : p ∉ al.positions := fun h => hnd.1 (List.mem_append.mpr (Or.inr h))
-  have hs1 := visitKids_flat test (flagA a p .other) ht
-  have hv : visitStmt (.ifS p test c (some al)) a =
-      (let a1 := visitKids test (flagA a p .other)
-       let a2 := withChild .ifK c.pos (fun x => sobTail c (visitStmt c x)) a1
-       let a3 := withChild .ifK al.pos (fun x => sobTail al (visitStmt al x)) a2
-       ifJoin p (stmtEnd c.isDeclOrExpr a2.info c.pos) (stmtEnd al.isDeclOrExpr a3.info al.pos) a3) := by simp [visitStmt, flagA]
-  rw [hv]
-  simp only []
-  generalize visitKids test (flagA a p .other) = a1 at hs1 ⊢
-  have he1 : a1.sc.end_ = a.sc.end_ := hs1.end_
-  have hb1 : a1.sc.foundBreak = a.sc.foundBreak := hs1.fb
-  have hc1 : a1.sc.foundContinue = a.sc.foundContinue := hs1.fc
-  have hi1 : ∀ q, q ≠ p → a1.info q = a.info q := fun q hq => by rw [hs1.info]; exact flagA_other a p .other q hq
-  have hfresh1 : ∀ q ∈ c.positions ++ al.positions, a1.info.endAt q = none := by
-    intro q hq; rw [endAt_eq_of_info_eq (congrFun hs1.info q), flagA_endAt]
-    exact hpre.fresh q (List.mem_cons_of_mem _ hq)
-  -- first branch
-  have hprec : Pre live c.positions (childA .ifK a1) :=
-    childA_pre live .ifK _ a1 (fun h => hpre.hs (by rw [← he1]; exact h))
-      (fun q hq => hfresh1 q (List.mem_append.mpr (Or.inl hq))) hnd2.1
-  have h1 := sob_ok live c _ _ (ihc _ hprec)
-  have hfb1 : FB a1 := by unfold FB; rw [hb1]; exact hpre.fb
-  generalize ha2 : withChild .ifK c.pos (fun x => sobTail c (visitStmt c x)) a1 = a2
-  rw [withChild_if] at ha2
-  obtain ⟨hi2, he2, hb2, hc2, hmb2, hmc2, hfb2⟩ := ifChild live c a1 _ a2 h1 hfb1 ha2.symm
-  generalize sobTail c (visitStmt c (childA .ifK a1)) = c' at h1 hi2
-  -- second branch
-  have hprea : Pre live al.positions (childA .ifK a2) := by
-    refine childA_pre live .ifK _ a2 (fun h => hpre.hs (by rw [← he1, ← he2]; exact h)) ?_ hnd2.2.1
-    intro q hq
-    rw [hi2, endAt_eq_of_info_eq (h1.frame q (fun hqc => hdisj q hqc hq))]
-    exact hfresh1 q (List.mem_append.mpr (Or.inr hq))
-  have h2 := sob_ok live al _ _ (iha _ hprea)
-  generalize ha3 : withChild .ifK al.pos (fun x => sobTail al (visitStmt al x)) a2 = a3
-  rw [withChild_if] at ha3
-  obtain ⟨hi3, he3, hb3, hc3, hmb3, hmc3, hfb3⟩ := ifChild live al a2 _ a3 h2 hfb2 ha3.symm
-  generalize sobTail al (visitStmt al (childA .ifK a2)) = al' at h2 hi3
-  have hcr : stopsEnd (stmtEnd c.isDeclOrExpr a2.info c.pos) = true → (live && (c.compl []).n) = false := by
-    intro h; have h := stmtEnd_stops h; rw [hi2] at h; exact h1.p4 h
-  have har : stopsEnd (stmtEnd al.isDeclOrExpr a3.info al.pos) = true → (live && (al.compl []).n) = false := by
-    intro h; have h := stmtEnd_stops h; rw [hi3] at h; exact h2.p4 h
-  obtain ⟨e, hje, hjs⟩ := ifJoin_eq p (stmtEnd c.isDeclOrExpr a2.info c.pos) (stmtEnd al.isDeclOrExpr a3.info al.pos) a3
-  rw [hje]
-  have hn : (Stmt.compl [] (.ifS p test c (some al))).n = ((c.compl []).n || (al.compl []).n) := by simp [Stmt.compl]
-  have hstop : stopsEnd a3.sc.end_ = true ∨ stopsEnd (some e) = true →
-      (live && ((c.compl []).n || (al.compl []).n)) = false := by
-    rintro (h | h)
-    · rw [he3, he2, he1] at h; simp [hpre.hs h]
-    · have := hjs h
-      have x := hcr this.1; have y := har this.2
-      revert x y; cases live <;> cases (c.compl []).n <;> cases (al.compl []).n <;> simp
-  refine ⟨⟨?_, ?_, ?_, ?_, ?_, ?_, ?_, ?_⟩, ?_⟩
-  · intro hst
-    rw [markAsEnd_stops] at hst
-    rw [hn]; apply hstop
-    revert hst; cases stopsEnd a3.sc.end_ <;> simp
-  · intro hh
-    rw [markAsEnd_foundBreak]
-    have : (live && (c.compl []).b) = true ∨ (live && (al.compl []).b) = true := by
-      simp only [Stmt.compl, seq_b, evalCompl_b, evalCompl_n, union_b, Bool.false_or, Bool.true_and] at hh
-      revert hh; cases live <;> cases (c.compl []).b <;> simp
-    rcases this with h | h
-    · exact hmb3 (hb2 h)
-    · exact hb3 h
-  · intro hh
-    rw [markAsEnd_foundContinue]
-    have : (live && (c.compl []).c) = true ∨ (live && (al.compl []).c) = true := by
-      simp only [Stmt.compl, seq_c, evalCompl_c, evalCompl_n, union_c, Bool.false_or, Bool.true_and] at hh
-      revert hh; cases live <;> cases (c.compl []).c <;> simp
-    rcases this with h | h
-    · exact hmc3 (hc2 h)
-    · exact hc3 h
-  · intro hh; rw [markAsEnd_foundBreak]; exact hmb3 (hmb2 (by rw [hb1]; exact hh))
-  · intro hh; rw [markAsEnd_foundContinue]; exact hmc3 (hmc2 (by rw [hc1]; exact hh))
-  · unfold FB; rw [markAsEnd_foundBreak]; exact hfb3
-  · intro q hq hu
-    rw [markAsEnd_ur, hi3] at hu
-    simp only [Stmt.positions] at hq
-    rcases List.mem_cons.mp hq with rfl | hq'
-    · rw [ur_eq_of_info_eq (h2.frame q hpa)] at hu
-      simp only [childA] at hu
-      rw [hi2, ur_eq_of_info_eq (h1.frame q hpc)] at hu
-      have := own_pos_dead hpre q .other _ (by simp only [childA]; rw [hs1.info]) hu
-      simp [this]
-    · have hne : q ≠ p := fun e => hnd.1 (e ▸ hq')
-      simp only [Stmt.reach, evalCompl_n, Bool.true_and]
-      rcases List.mem_append.mp hq' with hqc | hqa
-      · have hna : q ∉ al.positions := fun h => hdisj q hqc h
-        rw [ur_eq_of_info_eq (h2.frame q hna)] at hu
-        simp only [childA] at hu
-        rw [hi2] at hu
-        have := h1.p3 q hqc hu
-        rw [al.reach_false q hfa hna]
-        revert this; cases live <;> simp [hne]
-      · have hnc : q ∉ c.positions := fun h => hdisj q h hqa
-        have := h2.p3 q hqa hu
-        rw [c.reach_false q hfc hnc]
-        revert this; cases live <;> simp [hne]
-  · intro q hq
-    simp only [Stmt.positions, List.mem_cons, List.mem_append, not_or] at hq
-    rw [markAsEnd_info_other _ _ _ _ hq.1, hi3, h2.frame q hq.2.2]
-    simp only [childA]
-    rw [hi2, h1.frame q hq.2.1]
-    simp only [childA]
-    exact hi1 q hq.1
-  · intro hst
-    simp only [Stmt.pos] at hst
-    rw [hn]; apply hstop
-    exact markAsEnd_self_stops _ _ _ hst
 
 end DL.CF
